@@ -68,12 +68,12 @@ theorem scan_item_allowed (cwd : String) (r : Bool) (it : ScanItem)
 /-- **raw texts**: if a tree is auto-approved, then in every reachable raw text (parameter names with
     subscripts and arguments, here-document bodies, arithmetic text, case patterns, `[[ ]]` operands)
     every substitution the scanner finds is reliably delimited and approved -/
-theorem text_substitutions_allowed (n : Node) (t : String) (cwd cwd' : String) (r : Bool)
+theorem text_substitutions_allowed (n : Node) (ps : Bool) (t : String) (cwd cwd' : String) (r : Bool)
     (ha : (aNode w rec h n cwd r).action = .allow)
-    (hr : Reach w.resolveCd w.arithWalked r (.node n, cwd) (.text t, cwd'))
-    (it : ScanItem) (hit : it ∈ scanItems t) :
+    (hr : Reach w.resolveCd w.arithWalked r (.node n, cwd) (.text ps t, cwd'))
+    (it : ScanItem) (hit : it ∈ scanItems ps t) :
     ∃ inner, it = .sub inner true ∧ (rec inner cwd' r).action = .allow := by
-  have hx := reach_atoms w r _ _ hr (.text (some t) cwd' r) (by simp [Piece.atoms])
+  have hx := reach_atoms w r _ _ hr (.text ps (some t) cwd' r) (by simp [Piece.atoms])
   have hall := allow_covers_atoms w rec h n cwd r ha _ hx
   simp only [atomDecisions, scanArg, Py.truthy] at hall
   by_cases hte : t.isEmpty = true
@@ -116,10 +116,10 @@ inductive Runs : String → String → Bool → Node → String → Prop where
   | here {s cwd r nodes n c cwd'} :
       w.parse (Py.strip s) = .ok nodes → n ∈ nodes →
       Reach w.resolveCd w.arithWalked r (.node n, cwd) (.node c, cwd') → Runs s cwd r c cwd'
-  | inText {s cwd r nodes n t cwd' inner rel c cwd''} :
+  | inText {s cwd r nodes n ps t cwd' inner rel c cwd''} :
       w.parse (Py.strip s) = .ok nodes → n ∈ nodes →
-      Reach w.resolveCd w.arithWalked r (.node n, cwd) (.text t, cwd') →
-      ScanItem.sub inner rel ∈ scanItems t →
+      Reach w.resolveCd w.arithWalked r (.node n, cwd) (.text ps t, cwd') →
+      ScanItem.sub inner rel ∈ scanItems ps t →
       Runs inner cwd' r c cwd'' → Runs s cwd r c cwd''
 
 /-- **no hidden execution**: if Dippy auto-approves a command string then every command bash runs
@@ -145,7 +145,7 @@ theorem no_hidden_execution_deep (fuel : Nat) (s cwd : String) (r : Bool) (c : N
       obtain ⟨nodes', hp', hall⟩ := string_level w h f _ _ _ ha
       rw [hp] at hp'
       cases hp'
-      obtain ⟨inner', he, hallow⟩ := text_substitutions_allowed w _ h _ _ _ _ _ (hall _ hn) hr _ hit
+      obtain ⟨inner', he, hallow⟩ := text_substitutions_allowed w _ h _ _ _ _ _ _ (hall _ hn) hr _ hit
       cases he
       exact ih f hallow
 
